@@ -324,7 +324,9 @@ def cells(tier):
     fts = ["fb", "npz"]
     out = [dict(ft=ft, kind=k) for ft in fts for k in KINDS]
     if tier == "thorough":
-        out += [dict(ft=ft, kind=k, reader=True, full_advance=True) for ft in fts for k in KINDS]
+        out += [dict(ft=ft, kind=k, reader=True) for ft in fts for k in KINDS]
+        # every pair of instants k1 <= k2 (quadratic in the number of effects): the two fb histories that rewrite existing lists
+        out += [dict(ft="fb", kind=k, reader=True, full_advance=True) for k in ("continue-root", "continue-sub-used")]
     else:
         out += [dict(ft="fb", kind="continue-root", reader=True)]
     return out
